@@ -39,16 +39,40 @@ fn is_multiset_sub(got: &[Note], exp: &[Note]) -> bool {
 }
 
 /// hot source through one notification-moving operator
-fn moving_job(op: Op1, form: Form, len: usize, devs: u32) -> Job {
+fn moving_job(op: Op1, form: Form, len: usize, devs: u32, feedback: bool) -> Job {
   let pipe = Pipe::hot(0).o1(op.clone());
   let d = min_delay(&op);
   let opname = op.name();
-  Job::new(format!("{} L{len} d<={devs} {}", form_name(form), pipe.show()), move |ch, obs| {
-    let mut r = Run::start(&pipe, form);
+  let fb = if feedback { " +feedback" } else { "" };
+  Job::new(format!("{} L{len} d<={devs} {}{fb}", form_name(form), pipe.show()), move |ch, obs| {
+    let mut r = Run::prepare(1, form);
+    // source side: (note, virtual time of production)
+    let produced: std::sync::Arc<std::sync::Mutex<Vec<(Note, u64)>>> = Default::default();
+    let src_over = std::sync::Arc::new(std::sync::atomic::AtomicBool::new(false));
+    if feedback {
+      // a feedback loop: on its first item the subscriber emits one more item
+      // into the source. The delivery runs in a scheduled task, not inside the
+      // source's own `next`, so this is ordinary use, not re-entrancy.
+      use rxrust::prelude::Observer;
+      let (pr, mut hl, mut ht) = (produced.clone(), r.cx.hot_l[0].clone(), r.cx.hot_t[0].clone());
+      let mut done = false;
+      let over = src_over.clone();
+      r.probe = crate::probe::Probe::with_hook(move |_v: &V| {
+        // (a terminated source takes nothing more)
+        if !done && !over.load(std::sync::atomic::Ordering::SeqCst) {
+          done = true;
+          pr.lock().unwrap().push((Note::N(V::I(100)), world::now()));
+          if form == Form::Local {
+            hl.next(V::I(100));
+          } else {
+            ht.next(V::I(100));
+          }
+        }
+      });
+    }
+    r.subscribe(&pipe);
     r.world.settle();
     let mut hist: Vec<String> = vec![];
-    // source side: (note, virtual time of production)
-    let mut produced: Vec<(Note, u64)> = vec![];
     let mut src_done = false;
     let mut seq = 0i64;
     let mut reordered = false;
@@ -104,8 +128,9 @@ fn moving_job(op: Op1, form: Form, len: usize, devs: u32) -> Job {
           hist.push(format!("src<-{note:?}"));
           if note.is_terminal() {
             src_done = true;
+            src_over.store(true, std::sync::atomic::Ordering::SeqCst);
           }
-          produced.push((note.clone(), world::now()));
+          produced.lock().unwrap().push((note.clone(), world::now()));
           r.emit(0, &note);
           r.world.settle();
         }
@@ -113,7 +138,8 @@ fn moving_job(op: Op1, form: Form, len: usize, devs: u32) -> Job {
       obs.checks += 1;
       let recs = r.probe.recs();
       let got: Vec<Note> = recs.iter().map(|x| x.note.clone()).collect();
-      let exp: Vec<Note> = produced.iter().map(|x| x.0.clone()).collect();
+      let produced_now: Vec<(Note, u64)> = produced.lock().unwrap().clone();
+      let exp: Vec<Note> = produced_now.iter().map(|x| x.0.clone()).collect();
       let fifo = ch.deviations() == 0;
       // never early, never invented, never duplicated — under every run order
       if !is_multiset_sub(&got, &exp) {
@@ -123,7 +149,7 @@ fn moving_job(op: Op1, form: Form, len: usize, devs: u32) -> Job {
       let mut early = false;
       for x in &recs {
         if let Note::N(_) = x.note {
-          let at = produced.iter().find(|p| p.0 == x.note).map(|p| p.1).unwrap_or(0);
+          let at = produced_now.iter().find(|p| p.0 == x.note).map(|p| p.1).unwrap_or(0);
           if x.vt < at + d {
             fail(obs, "early", &hist, format!("{:?} produced at t={at} delivered at t={} (delay {d})", x.note, x.vt));
             early = true;
@@ -178,7 +204,7 @@ fn moving_job(op: Op1, form: Form, len: usize, devs: u32) -> Job {
     // everything has run out: completeness
     if (obs.viol.is_empty() || (reordered && obs.viol.len() == 1)) && r.world.idle() {
       let got = r.probe.notes();
-      let exp: Vec<Note> = produced.iter().map(|x| x.0.clone()).collect();
+      let exp: Vec<Note> = produced.lock().unwrap().iter().map(|x| x.0.clone()).collect();
       let failing = matches!(exp.last(), Some(Note::Err(_)));
       let complete = if failing { got.last() == exp.last() } else { got == exp };
       obs.checks += 1;
@@ -340,8 +366,11 @@ pub fn plan(tier: Tier) -> Plan {
   ];
   for form in [Form::Local, Form::Threads] {
     for op in &moving {
-      jobs.push(moving_job(op.clone(), form, len0, 0));
-      jobs.push(moving_job(op.clone(), form, len, devs));
+      jobs.push(moving_job(op.clone(), form, len0, 0, false));
+      jobs.push(moving_job(op.clone(), form, len, devs, false));
+    }
+    for op in [Op1::ObserveOn, Op1::Delay(1), Op1::Delay(0)] {
+      jobs.push(moving_job(op, form, len - 2, devs - 1, true));
     }
   }
   let sub_ops = vec![
@@ -371,7 +400,7 @@ pub fn plan(tier: Tier) -> Plan {
       prop: "C07".into(),
       tier: tier_name(tier),
       engine: "E1 opseq".into(),
-      rule: "observe_on, delay(1|2), delay_at(now-2..now+2) in local and _threads form over a hot source, and subscribe_on, delay_subscription(1|2), delay_subscription_at(now-1..now+2) over cold scripts and a hot source: every sequence up to the length bound over {source next/complete/error, advance one tick, run the i-th ready task}; scheduler models: FIFO-prompt (deviation bound 0, longer histories) and any-order/late with a bounded number of deviations (running another ready task than the first, or letting the clock/source move while a task is ready); afterwards everything is run out. Oracle after every step: nothing invented or duplicated, no item before production + configured delay (for _at: the time remaining to the instant), exactly then when no deviation occurred, source order kept, all items + terminal once everything ran out; non-trivial = something was delivered".into(),
+      rule: "observe_on, delay(1|2), delay_at(now-2..now+2) in local and _threads form over a hot source, and subscribe_on, delay_subscription(1|2), delay_subscription_at(now-1..now+2) over cold scripts and a hot source: every sequence up to the length bound over {source next/complete/error, advance one tick, run the i-th ready task}; scheduler models: FIFO-prompt (deviation bound 0, longer histories) and any-order/late with a bounded number of deviations (running another ready task than the first, or letting the clock/source move while a task is ready); afterwards everything is run out; observe_on / delay also with a subscriber that, on its first item, emits one more item into the source (a feedback loop through the scheduler). Oracle after every step: nothing invented or duplicated, no item before production + configured delay (for _at: the time remaining to the instant), exactly then when no deviation occurred, source order kept, all items + terminal once everything ran out; non-trivial = something was delivered".into(),
       bounds: json!({"len_fifo": len0, "len_any_order": len, "deviations": devs}),
       assumptions: vec!["task bodies are atomic in the any-order model".into()],
     },
